@@ -55,7 +55,7 @@ CLAIMED = {
     "C17": (
         "property-based testing over pairs of axis-length assignments: AST whitelist + integer-masked AST equality of the generated code (Hypothesis)",
         "Generated-input search over descriptions, backends and four rescalings of all axis lengths > 1 (up to 64; small lengths that coincide with shifts / numeric axes; all equal): the emitted source must stay within a whitelist of "
-        "straight-line AST node kinds and must be identical up to integer literals across rescalings that preserve the length-1 pattern. Compilation only. Exploration only.",
+        "straight-line AST node kinds and must be identical up to integer literals across rescalings that preserve the length-1 pattern, across two further traces of the same call (compile cache cleared) and across three interpreters with different PYTHONHASHSEED. Compilation only. Exploration only.",
         "Trusted: Python's ast module. numpy-family backends plus vmap-style code (nested function definitions) from the loop-vmap double.",
         "DESIGN.md §4 C17",
     ),
